@@ -320,9 +320,8 @@ RouterAgrees(s) ==
   /\ LET r == Route(ReferrersPath(AnyRepo, s)) IN
        isDig <=> r = RCall("referrers", "Referrers", AnyRepo, s)
 
-Laws(s) ==
-  LET S == Splits(s)
-      rel == ParseRelativeOf(S)
+LawsOn(s, S) ==      \* S = Splits(s)
+  LET rel == ParseRelativeOf(S)
       abs == ParseOf(S)
       crel == CodeParseRelative(s)
       cabs == CodeParse(s)
@@ -343,13 +342,14 @@ Laws(s) ==
   /\ crel = rel /\ cabs = abs
   /\ DigestTagDisjoint(s)
   /\ RouterAgrees(s)
+Laws(s) == LawsOn(s, Splits(s))
 
 \* everything the specification says about one string (what OciRefMC exports and what
 \* OciRefTrace compares the implementation's outputs with)
-Verdict(s) ==
-  LET S == Splits(s) IN
+VerdictOn(s, S) ==   \* S = Splits(s)
   [host |-> IsHost(s), repo |-> IsRepository(s), tag |-> IsTag(s), digest |-> IsDigest(s),
    rel |-> ParseRelativeOf(S), abs |-> ParseOf(S)]
+Verdict(s) == VerdictOn(s, Splits(s))
 \* ... in the shape that travels through JSON
 RefSeq(p) == <<p.host, p.repo, p.tag, p.digest>>
 SeqRef(q) == [host |-> q[1], repo |-> q[2], tag |-> q[3], digest |-> q[4]]
